@@ -32,6 +32,10 @@ class C02(OptCheck):
         for v in nums:
             for form in (["--out=%d" % v], ["-o=%d" % v]) + ((["--out", "%d" % v], ["-o", "%d" % v]) if v >= 0 else ()):
                 yield case(d, [], [list(form)], kind="parsel"), "typed"
+        # zero-padded and signed decimal texts (must be read as DECIMAL: "010" is ten)
+        for txt in ["010", "007", "08", "09", "0100", "00", "-010", "-08", "+5", "+012", "0x10", "1e3", " 7", "7 ", "0"]:
+            yield case(d, [], [["--out=" + txt]], kind="parsel"), "typed-padded"
+            yield case(d, [], [["--out=1", "--inc=" + txt, "-i=" + txt]], kind="parsel"), "typed-padded"
         for _ in range(300 if tier == "quick" else 3000):
             v = rng.randint(-10**rng.randint(1, 18), 10**rng.randint(1, 18))
             multi = []
